@@ -36,9 +36,14 @@ class BaseEngine:
         return lines
 
     # -- machinery
+    def skip_model(self, gcls):
+        """classes judged by the oracle only (the model would be too slow on them)"""
+        return False
+
     def execute(self, cases):
         lines = [c[1] for c in cases]
-        model_out = C.run_lines(os.path.join(C.RUNNER, "runner.exe"), lines)
+        mlines = ["noop" if self.skip_model(c[0]) else c[1] for c in cases]
+        model_out = C.run_lines(os.path.join(C.RUNNER, "runner.exe"), mlines)
         impl = {}
         for prof in self.profiles:
             impl[prof] = C.run_lines(C.harness_exe(prof), lines)
